@@ -350,6 +350,19 @@ def process_val_weights(vals_and_weights, npartitions, dtype_info):
             q_weights = np.cumsum(weights)
             q_target = np.linspace(q_weights[0], q_weights[-1], npartitions + 1)
             rv = np.interp(q_target, q_weights, vals)
+            if np.issubdtype(vals.dtype, np.integer):
+                lo, hi = int(vals[0]), int(vals[-1])
+                if max(abs(lo), abs(hi)) > 2**53:
+                    # float64 cannot hold these integers: interpolate the
+                    # distance from the smallest value and stay within the
+                    # sampled range
+                    offsets = np.interp(
+                        q_target, q_weights, [float(int(v) - lo) for v in vals]
+                    )
+                    rv = [min(lo + int(o), hi) for o in offsets]
+                    # the targets start at the first and end at the last value
+                    rv[0], rv[-1] = lo, hi
+                    rv = np.array(rv, dtype=vals.dtype)
         else:
             # Distribute the empty partitions
             duplicated_index = np.linspace(
